@@ -102,6 +102,25 @@ CLAIMED = {
         note="Trusted: Lean kernel; Driver model tied by suite driver; confluence/termination of the ~95 heuristic rules is not a theorem.",
         technique="Lean 4 proof (loop invariants) + orchestration correspondence + iteration sweep",
     ),
+    "C12": dict(
+        text="Machine-checked proof: (1) the repetition vectors tried for a quantified list are exactly the position-wise admissible vectors summing to the "
+             "length (regular-expression reading), for all quantifier lists and lengths; (2) soundness of the matcher w.r.t. an inductive declarative "
+             "semantics with one canonical text per wildcard name, for all trees, templates, class hierarchies and fuels; bindings are functional. "
+             "Completeness is false in general (nested-list backtracking): counterexample evaluated on the model and replayed on the code (known finding). 3 theorems.",
+        design="4/C12",
+        note="Trusted: Lean kernel; Quant/Match models tied by suites perms (exhaustive small scope) and match (templates harvested from the running pipeline + "
+             "compiled patterns x corpus nodes, via an exporter of ast trees / compiled templates); walk order and compile_template preprocessing are covered by the oracle only.",
+        technique="Lean 4 proof (simultaneous induction on fuel over five mutually recursive matcher functions) + differential correspondence + brute-force reference matcher",
+    ),
+    "C13": dict(
+        text="Machine-checked proof of the offset algebra: every reported offset lies inside the source (any text, line-break set, line, byte column); byte "
+             "columns convert exactly at character boundaries for any script and are the identity on ASCII; the reported (line, column) of a match addresses "
+             "its span start on the line containing it; physical lines partition the text. 5 theorems.",
+        design="4/C13",
+        note="Trusted: Lean kernel; Offsets/Lines models tied by suite offsets on non-ASCII / CRLF / form-feed / U+2028 sources; that CPython positions delimit the "
+             "node text, blank trimming and the decorator extension are checked by the coherence oracle, not proved.",
+        technique="Lean 4 proof (list/arith induction) + differential correspondence + span-vs-ast.get_source_segment oracle",
+    ),
 }
 
 NOT_YET = {}
